@@ -1,6 +1,7 @@
 import EmmyVerif.Lemmas.EventsCore
 import EmmyVerif.Lemmas.EventsGraph
 import EmmyVerif.Lemmas.Reader
+import EmmyVerif.Lemmas.EventsLevel
 import EmmyVerif.Gen.TreeCallGraph
 /-!
 # C02 — Parsing never crashes or hangs on any input  (*partial*: see the end of this header)
@@ -113,3 +114,38 @@ theorem C02_stack_frames_bounded (p : List Nat) (hp : IsPath edges p)
 theorem C02_limit_value : maxLevels = 200 := by decide
 
 end CallGraph
+
+/-!
+## The level counter: a failed `enter_level` changes nothing, guards are balanced
+
+`Level.enter` / `Level.leave` / `Level.guarded` model `LuaParser::enter_level`, `leave_level` and the
+guard shape `enter_level(p)?; let r = body; p.leave_level(); r`. That the source has exactly these
+shapes is re-extracted on every run (`Gen.TreeCallGraph.guardShapes`: the two counter methods, the
+two forwarders of the doc parser, the two `Result` helpers and every guard user — `enter_level(p)?;`
+first, one `leave_level`, nothing in between that can leave the function).
+-/
+namespace Level
+
+/-- **C02 failed enter leaves the counter unchanged**, and a successful one never exceeds the limit. -/
+theorem C02_enter_fail_unchanged (max n : Nat) (h : (enter max n).2 = false) : (enter max n).1 = n :=
+  enter_fail_unchanged max n h
+
+theorem C02_enter_bounded (max n : Nat) (h : n ≤ max) : (enter max n).1 ≤ max := enter_le_max max n h
+
+/-- **C02 guards are balanced.** Any nesting of guarded calls around a counter-neutral body returns the
+counter to its value — whether each `enter` succeeded or failed — so the counter always equals the
+number of live level-taking frames (what `C02_stack_frames_bounded` assumes). -/
+theorem C02_guards_balanced (max : Nat) (inner : Nat → Nat) (hi : ∀ m, inner m = m) (k n : Nat) :
+    nest max inner k n = n := nest_balanced max inner hi k n
+
+/-- the seeded shape "`leave_level` also after a failed `enter_level`" is not balanced: at the limit
+every failing guard lowers the counter by one (recursion is then unbounded) -/
+theorem C02_unconditional_leave_witness : guardedBad 200 id 200 = 199 := by decide
+
+/-- **T-src bridge.** Every function of the parse path that touches the level counter has the shape
+the model describes (kernel evaluation over the list re-extracted from the Rust source). -/
+theorem C02_guard_shapes_in_source :
+    Gen.TreeCallGraph.guardShapes.all (fun x => x.2) = true ∧ 10 ≤ Gen.TreeCallGraph.guardShapes.length := by
+  decide
+
+end Level
